@@ -190,6 +190,29 @@ theorem c03_acceptable (ip : Bool) (tag : Option Text) (vs : List Text) :
         have := hmax v hv pv this
         cases hc : cmp pv pl <;> simp_all
 
+/-- when no two *distinct* cached strings denote versions of equal precedence (the
+    usual case: a registry lists each version once), even the returned **string** does
+    not depend on order, batching or repetition -/
+theorem c03_same_spelling_when_unique (ip : Bool) (vs₁ vs₂ : List Text) (hset : ∀ v, v ∈ vs₁ ↔ v ∈ vs₂)
+    (huniq : ∀ a ∈ vs₁, ∀ b ∈ vs₁, ∀ pa pb, parseVersion a = some pa → parseVersion b = some pb →
+      cmp pa pb = .eq → a = b) :
+    getLatest ip none vs₁ = getLatest ip none vs₂ := by
+  have h := c03_set_invariant ip vs₁ vs₂ hset
+  cases h1 : getLatest ip none vs₁ with
+  | none =>
+    cases h2 : getLatest ip none vs₂ with
+    | none => rfl
+    | some l₂ => rw [h1, h2] at h; exact h.elim
+  | some l₁ =>
+    cases h2 : getLatest ip none vs₂ with
+    | none => rw [h1, h2] at h; exact h.elim
+    | some l₂ =>
+      rw [h1, h2] at h
+      obtain ⟨p₁, p₂, hp1, hp2, he⟩ := h
+      have m1 := c03_member ip vs₁ l₁ h1
+      have m2 := (hset l₂).mpr (c03_member ip vs₂ l₂ h2)
+      rw [huniq l₁ m1 l₂ m2 p₁ p₂ hp1 hp2 he]
+
 /-! ### monotone in the history: a later fetch that only adds versions never lowers
     the latest, and switching prereleases off never raises it -/
 
@@ -272,6 +295,8 @@ theorem c03_setting_irrelevant_on_stable (vs : List Text)
   rw [hf]
 
 /-! ### non-vacuity: concrete caches -/
+example : getLatest true none ["1.0.0".toList, "1.2.0".toList, "junk".toList] =
+          getLatest true none ["junk".toList, "1.2.0".toList, "1.0.0".toList, "1.2.0".toList] := by decide
 example : ∃ l', getLatest true none (["1.0.0".toList] ++ ["0.9.0".toList, "1.2.0".toList]) = some l' ∧
     l' = "1.2.0".toList := ⟨_, by decide, rfl⟩
 example : getLatest true none ["1.0.0".toList, "2.0.0-rc.1".toList] = some "1.0.0".toList ∧
